@@ -4,6 +4,7 @@ Functions under contract: rlbox::detail::convert_type_fundamental<T_To,T_From> f
 from vlib.unit import Unit, Inst
 from .common import cs, CXX_INTS, mi, tid
 
+from .C07 import MEMCPY_OBJ
 PROP = 'C06'
 TITLE = 'Integers crossing the ABI boundary keep their value or the operation aborts'
 FUNCTIONS = ['rlbox::detail::convert_type_fundamental (rlbox_conversion.hpp:16-92)', 'rlbox::detail::dynamic_check (contract leaf)']
@@ -56,6 +57,32 @@ def array_pair_inst(to, frm, n, tier):
                 'detail::convert_type_fundamental_or_array(to, from);', cl, h, leaves=['dynamic_check'], prop=PROP, root_name='convert_type_fundamental_or_array',
                 tier=tier, pre='_Bool g_noabort; _Bool g_backend_nonnull; unsigned long g_expect_example; unsigned long g_expect_malloc_size; unsigned long g_w;',
                 loop_contracts={('convert_type_fundamental_or_array', 0): lc}, note='array of %d: T_To=%s T_From=%s' % (n, to, frm))
+
+
+def array2_pair_inst(to, frm, n, m, tier):
+    """rank-2 arrays: std::array<std::array<to, m>, n> <- same shape of frm (witness element (g_w, g_w2)); the two nested
+    constant-bound loops are completely unwound (unwinding assertions on): a bounded stand-in whose bound is the array shape"""
+    cto, lo, hi = CXX_INTS[to]
+    cfr, flo, fhi = CXX_INTS[frm]
+    # the shape the public routes produce for T[n][m]: c_to_std_array_t<T[n][m]> = std::array<T[m], n> (outer std::array of C rows)
+    TA = cs('std::array<%s[%d], %d>' % (to, m, n), 'A_')
+    FA = cs('std::array<%s[%d], %d>' % (frm, m, n), 'A_')
+    el = '%s->_M_elems[%s][%s]'
+    allfit = ' && '.join('(MI(%s) >= %s && MI(%s) <= %s)' % (el % ('$1', i, j), mi(lo), el % ('$1', i, j), mi(hi)) for i in range(n) for j in range(m))
+    cl = [('objs', '__CPROVER_requires(__CPROVER_rw_ok($0, sizeof(*$0)) && __CPROVER_r_ok($1, sizeof(*$1)) && g_w < %d && g_w2 < %d)' % (n, m)),
+          ('noabort_pre', '__CPROVER_requires(g_noabort ==> (%s))' % allfit),
+          ('every_element_keeps_its_value_or_abort', '__CPROVER_ensures(MI(%s) == MI(__CPROVER_old(%s)))' % (el % ('$0', 'g_w', 'g_w2'), el % ('$1', 'g_w', 'g_w2'))),
+          ('frame', '__CPROVER_assigns(*$0)')]
+    h = ('  struct %s to; struct %s from; unsigned long in_w, in_w2; g_w = in_w; g_w2 = in_w2; __CPROVER_assume(in_w < %d && in_w2 < %d); %s in_from = from._M_elems[in_w][in_w2];\n'
+         '  _Bool in_noabort; g_noabort = in_noabort;\n  $ROOT(&to, &from);\n' % (TA, FA, n, m, cfr))
+    it = Inst('c06_array2_%s_%dx%d__from__%s' % (tid(to), n, m, tid(frm)), 'std::array<%s[%d], %d>& to, const std::array<%s[%d], %d>& from' % (to, m, n, frm, m, n),
+              'detail::convert_type_fundamental_or_array(to, from);', cl, h, leaves=['dynamic_check'], prop=PROP, root_name='convert_type_fundamental_or_array',
+              tier=tier, pre='_Bool g_noabort; _Bool g_backend_nonnull; unsigned long g_expect_example; unsigned long g_expect_malloc_size; unsigned long g_w, g_w2;\n' + MEMCPY_OBJ,
+              note='rank-2 array %dx%d: T_To=%s T_From=%s' % (n, m, to, frm))
+    it.kind = 'bounded'
+    it.unwind = max(n, m) + 1
+    it.object_bits = 12
+    return it
 
 
 def dynamic_check_body_inst(tier):
@@ -112,6 +139,7 @@ def units(tier):
     if tier != 'quick':
         apairs += [('long', 'unsigned long', 2), ('unsigned char', 'signed char', 8), ('unsigned long', 'unsigned int', 3), ('char', 'int', 4)]
     insts += [array_pair_inst(a, b, n, tier) for a, b, n in apairs]
+    insts += [array2_pair_inst('int', 'unsigned int', 2, 2, tier), array2_pair_inst('unsigned short', 'short', 3, 2, tier), array2_pair_inst('int', 'int', 2, 3, tier)]
     insts.append(dynamic_check_body_inst(tier))
     for d_, a_, b_ in [('TO_APPLICATION', 'int', 'long'), ('TO_APPLICATION', 'unsigned int', 'unsigned long'), ('TO_SANDBOX', 'int', 'long'), ('TO_APPLICATION', 'long', 'int'), ('NO_CHANGE', 'short', 'long long')]:
         insts.append(non_class_inst(d_, a_, b_, tier))
